@@ -112,7 +112,11 @@ fn main() {
         }
         if let Some(l) = arr.as_any().downcast_ref::<ListArray>() {
             let f = l.filter_garbage_nulls();
-            if f.to_data() != l.to_data() {
+            // logical comparison: same validity, same items for the valid lists, zero-length nulls (Arrow's
+            // ArrayData equality also compares the extents of null slots, which is exactly what changes)
+            let same = f.len() == l.len()
+                && (0..l.len()).all(|j| f.is_null(j) == l.is_null(j) && (l.is_null(j) && f.value_length(j) == 0 || l.is_valid(j) && f.value(j).to_data() == l.value(j).to_data()));
+            if !same {
                 fails += 1;
                 fail("filter_garbage_nulls-values", format!("case {i} type {dt}"));
             }
